@@ -85,7 +85,10 @@ type FuncContract struct {
 	Modifies   []string
 	Props      []string
 	NoFrame    bool
+	DynTypes   []dynDef
 }
+
+type dynDef struct{ Case, Param, Type string }
 
 type RawContract struct {
 	Key     string
@@ -386,6 +389,14 @@ func (e *Engine) parseContractLines(p *packages.Package, file string, lines []st
 				continue
 			}
 			cur.Ghosts = append(cur.Ghosts, specParam{fs[0], fs[1]})
+		case "dyn":
+			// dyn SCENARIO PARAM TYPE: in that scenario run the interface parameter holds a value of this dynamic type
+			fs := strings.Fields(rest)
+			if len(fs) != 3 {
+				fail("dyn needs scenario, parameter and type", t)
+				continue
+			}
+			cur.DynTypes = append(cur.DynTypes, dynDef{Case: fs[0], Param: fs[1], Type: fs[2]})
 		case "case":
 			// case NAME: lhs == constant   (the function is verified once more with lhs bound to the constant)
 			nm, r := splitLabel(rest)
@@ -787,7 +798,9 @@ func stdlibInline() map[string]bool {
 		"(image.Point).In", "(image/color.NRGBA).RGBA", "(image/color.RGBA64).RGBA", "(image/color.RGBA).RGBA",
 		"(*image.YCbCr).YCbCrAt",
 		"image/color.YCbCrToRGB", "(image/color.YCbCr).RGBA",
-		"(image.Rectangle).Dx", "(image.Rectangle).Dy", "(image.Rectangle).Empty",
+		"(image.Rectangle).Dx", "(image.Rectangle).Dy", "(image.Rectangle).Empty", "image.Rect", "image.Pt", "(image.Rectangle).Size", "(image.Point).Add", "(image.Point).Sub", "(image.Rectangle).Add", "(image.Rectangle).Sub", "(image.Rectangle).Canon",
+		"(*image.RGBA64).Bounds", "(*image.NRGBA64).Bounds", "(*image.RGBA).Bounds", "(*image.NRGBA).Bounds", "(*image.YCbCr).Bounds",
+		"(*image.Gray).Bounds", "(*image.Gray16).Bounds", "(*image.CMYK).Bounds", "(*image.Paletted).Bounds",
 	} {
 		m[f] = true
 	}
